@@ -37,8 +37,8 @@ CHECKS = {
    note="K body frames per message (evidence.bounds); byte contents are tracked as chunk identities and lengths, not bit-blasted; stream segmentation is C06; queue FIFO trusted. Native replay by observation equality (body chunks carry distinct byte values) and sampled translator validation.",
    ref="DESIGN.md §4 C03"),
  'C04': dict(
-   text="Bounded model checking from MIR of both halves of a synchronous call: the dispatcher routes every reply-type frame (all -Ok methods, ConsumeOk, CancelOk, GetEmpty, Channel.CloseOk) on channel n, unchanged, to slot n's reply queue only (two channels, symbolic ids and fields); IoLoopHandle::call sends exactly one request frame on its own channel and returns exactly the reply's value when its type matches (every TryFromAmqpClass impl), FrameUnexpected otherwise, the queued error if any; get/consume likewise; nowait variants never read the reply queue.",
-   note="Overlapping calls from several threads are represented by the arbitrary order of reply frames across channels (routing depends on the frame's channel id only); at most one outstanding call per channel is a type-system fact; the public methods built on call() are covered by C12.",
+   text="Bounded model checking from MIR of both halves of a synchronous call: the dispatcher routes every reply-type frame (all -Ok methods, ConsumeOk, CancelOk, GetEmpty, Channel.CloseOk) on channel n, unchanged, to slot n's reply queue only (two channels, symbolic ids and fields); IoLoopHandle::call sends exactly one request frame on its own channel and returns exactly the reply's value when its type matches (every TryFromAmqpClass impl), FrameUnexpected otherwise, the queued error if any; get/consume likewise; nowait variants never read the reply queue; every public synchronous operation of Channel/Queue/Exchange/Consumer (the C12 operation table) with an arbitrary symbolic message on its reply queue returns exactly the reply's values (queue name and counts, purge/delete count, consumer tag and delivery queue, get result) and consumes exactly that one reply; nowait operations set the nowait flag so that no reply will arrive.",
+   note="Overlapping calls from several threads are represented by the arbitrary order of reply frames across channels (routing depends on the frame's channel id only); at most one outstanding call per channel is a type-system fact; what the public methods put on the wire is C12. Routing counterexamples replayed by observation equality, API return-value counterexamples on a real Channel over in-memory queues.",
    ref="DESIGN.md §4 C04"),
  'C11': dict(
    text="Bounded model checking of consumer lifecycles through the real dispatcher (MIR): every history of K symbolic frames over {ConsumeOk, Deliver + empty header, server Cancel (nowait or not), CancelOk, Channel.Close/CloseOk, Connection.Close/CloseOk} and every prefix of it; the consumer's queue must be the deliveries addressed to its tag while registered (in order, fields intact) followed by exactly one terminal message naming the true cause, after which it is disconnected; server cancel answered with CancelOk iff !nowait; consumers created during the history obey the same shape.",
